@@ -46,6 +46,7 @@ func corrC04(r *Run) {
 	caseBudget := r.N(500, 8000)
 	single := func(data []byte, sched []int, bucket string) {
 		c := &chunkReader{data: data, sched: sched}
+		r.SetReplay(replayStream(data, sched))
 		var o readObs
 		var alloc uint64
 		var hung bool
